@@ -579,6 +579,32 @@ class Program:
             raise AnchorError("const anchor %r matched %d" % (suffix, len(m)))
         return m[0]
 
+    def inline_summary(self, path, level):
+        """(param names, return expression) of a small straight-line local function, else None.
+        Lets guards and provenance see through extracted helpers and getters."""
+        key = (path, level)
+        cache = self.__dict__.setdefault("_inline_cache", {})
+        if key in cache:
+            return cache[key]
+        cache[key] = None  # recursion guard
+        b = self.bodies.get(path)
+        res = None
+        if b is not None and not b.coroutine and b.kind in ("Fn", "AssocFn") and b.argc <= 6:
+            live = [x for x in b.blocks if x.idx in b.live_blocks() and not x.cleanup]
+            if len(live) <= 14 and all(x.term.kind in ("goto", "call", "return", "assert", "drop") for x in live):
+                defs0 = [d for d in b.defs.get(0, []) if d[0] in b.live_blocks()]
+                if len(defs0) == 1:
+                    try:
+                        s = Sym(b, level)
+                        ret = s.local_expr(0)
+                        params = [b.local_name(i) or "_%d" % i for i in range(1, b.argc + 1)]
+                        if ret[0] not in ("var", "other") and len(set(params)) == len(params) and _expr_size(ret) <= 60:
+                            res = (params, ret)
+                    except Exception:
+                        res = None
+        cache[key] = res
+        return res
+
     def children(self, body):
         """Closure / coroutine bodies created (lexically) inside `body`."""
         if self._children is None:
@@ -748,10 +774,25 @@ TRANSPARENT_CALLS = {
 }
 
 
+MAX_INLINE = 2
+
+
+def subst(e, env):
+    """Replace ('param', name) leaves by env[name]."""
+    if not isinstance(e, tuple) or not e:
+        return e
+    if e[0] == "param":
+        return env.get(e[1], e)
+    if e[0] in ("const", "fn", "var", "capture", "local", "other"):
+        return e
+    return tuple(subst(x, env) if isinstance(x, tuple) else x for x in e)
+
+
 class Sym:
-    def __init__(self, body):
+    def __init__(self, body, inline_level=0):
         self.body = body
         self.memo = {}
+        self.inline_level = inline_level
 
     def local_expr(self, l, depth=0, stack=()):
         b = self.body
@@ -807,6 +848,12 @@ class Sym:
                 if x[0] == "mutated":
                     x = x[1]
             return ("poll", x)
+        if self.inline_level < MAX_INLINE:
+            summ = self.body.prog.inline_summary(callee, self.inline_level + 1)
+            if summ is not None:
+                params, ret = summ
+                if len(params) == len(args):
+                    return ("call", callee, args, subst(ret, dict(zip(params, args))))
         return ("call", callee, args)
 
     def place_expr(self, p, depth=0, stack=()):
@@ -901,6 +948,17 @@ def capture_expr(name):
     return e
 
 
+def _expr_size(e):
+    n = 0
+    stack = [e]
+    while stack and n <= 200:
+        x = stack.pop()
+        if isinstance(x, tuple) and x:
+            n += 1
+            stack.extend(y for y in x[1:] if isinstance(y, tuple))
+    return n
+
+
 def expr_children(e):
     k = e[0]
     if k in ("field", "variant", "index", "mutated", "proj?", "discr", "poll", "await", "awaitv", "try", "tryv", "tryerr"):
@@ -908,7 +966,7 @@ def expr_children(e):
     if k in ("un", "cast"):
         return (e[2],)
     if k == "call":
-        return e[2]
+        return e[2] + ((e[3],) if len(e) > 3 else ())
     if k == "bin":
         return (e[2], e[3])
     if k == "agg":
@@ -1047,7 +1105,7 @@ class Guard:
        'int'   : expr == value / 'intnot'
     """
 
-    __slots__ = ("kind", "op", "a", "b", "name", "truth", "edge", "line", "macros", "enum")
+    __slots__ = ("kind", "op", "a", "b", "name", "truth", "edge", "line", "macros", "enum", "alt")
 
     def __init__(self, kind, **kw):
         self.kind = kind
@@ -1060,6 +1118,7 @@ class Guard:
         self.line = kw.get("line")
         self.macros = kw.get("macros", ())
         self.enum = kw.get("enum")
+        self.alt = None  # the same edge seen as `helper(..) == truth` when the relation came from an inlined helper
 
     def exprs(self):
         return [x for x in (self.a, self.b) if x is not None]
@@ -1091,6 +1150,12 @@ def _bool_guard(e, truth, **kw):
     if e[0] == "bin" and e[1] in NEG:
         op = e[1] if truth else NEG[e[1]]
         return Guard("rel", op=op, a=e[2], b=e[3], **kw)
+    if e[0] == "call" and len(e) > 3:
+        # a small local helper: try the relation it computes
+        g = _bool_guard(e[3], truth, **kw)
+        if g.kind in ("rel", "is"):
+            g.alt = Guard("bool", a=("call", e[1], e[2]), truth=truth, **kw)
+            return g
     if e[0] == "call":
         path = e[1] or ""
         if len(e[2]) == 2:
@@ -1185,6 +1250,8 @@ class GuardIndex:
         for blk, lst in self.by_switch.items():
             for tgt, g in lst:
                 yield g
+                if g.alt is not None:
+                    yield g.alt
 
     def dominating(self, block, include_tracing=False, _depth=0):
         """Guards whose edge every path entry->block takes. Bool temporaries defined by
@@ -1208,6 +1275,8 @@ class GuardIndex:
                 if body.edge_dominates((sblk, tgt), block):
                     if len(gs) == 1:
                         out.append(gs[0])
+                        if gs[0].alt is not None:
+                            out.append(gs[0].alt)
                         out.extend(self._resolve_bool_temp(gs[0], _depth))
                     else:
                         # several values lead here: a disjunction, keep as 'oneof'
